@@ -13,10 +13,8 @@ class StubError(Exception):
 
 
 def _value(x, y):
-    if isinstance(x, (list, dict)):
-        x = 40 + len(x)
-    elif not isinstance(x, (int, float)):
-        x = 50
+    if not isinstance(x, (int, float)):
+        x = 41          # any "unkeyable" argument (list, BadRepr instance)
     return 1000 + 10 * x + y
 
 
@@ -46,6 +44,44 @@ def f3(x, y=0):
 
 
 FUNCS = [f1, f2, f3]
+
+
+# value independent of y (used with ignore='y' / ignore=1)
+def g1(x, y=0):
+    _body('g1', x, y)
+    return _value(x, 0)
+
+
+def g2(x, y=0):
+    _body('g2', x, y)
+    return _value(x, 0)
+
+
+def g3(x, y=0):
+    _body('g3', x, y)
+    return _value(x, 0)
+
+
+GFUNCS = [g1, g2, g3]
+
+
+# value depends on round(x) only (used with tol=0)
+def h1(x, y=0):
+    _body('h1', x, y)
+    return _value(round(x), 0)
+
+
+def h2(x, y=0):
+    _body('h2', x, y)
+    return _value(round(x), 0)
+
+
+def h3(x, y=0):
+    _body('h3', x, y)
+    return _value(round(x), 0)
+
+
+HFUNCS = [h1, h2, h3]
 
 
 class BadRepr(object):
